@@ -298,8 +298,13 @@ bool Instance::eval(const size_t argc, char* const* argv) {
     }
     CScript::const_iterator it = script.begin();
     while (it != script.end()) {
-        if (!StepScript(*env, it, &script)) {
-            fprintf(stderr, "Error: %s\n", ScriptErrorString(*env->serror).c_str());
+        try {
+            if (!StepScript(*env, it, &script)) {
+                fprintf(stderr, "Error: %s\n", ScriptErrorString(*env->serror).c_str());
+                return false;
+            }
+        } catch (const std::exception& ex) {
+            fprintf(stderr, "Error: exception thrown: %s\n", ex.what());
             return false;
         }
     }
